@@ -147,11 +147,15 @@ inductive Atom (cfg : Config) : State → List Obs → State → Prop
       (timeoutFired x t).out = new ++ x.out →
       Atom cfg x.st new.reverse (timeoutFired x t).st
 
-/-- a sequence of atoms with the observations of each -/
-inductive Exec (cfg : Config) : State → List (List Obs) → State → Prop
+/-- a sequence of atoms; the trace records, for each atom, its observations and the state it
+    leads to -/
+inductive Exec (cfg : Config) : State → List (List Obs × State) → State → Prop
   | nil (s : State) : Exec cfg s [] s
-  | cons {s s1 s2 : State} {o : List Obs} {os : List (List Obs)} :
-      Atom cfg s o s1 → Exec cfg s1 os s2 → Exec cfg s (o :: os) s2
+  | cons {s s1 s2 : State} {o : List Obs} {tr : List (List Obs × State)} :
+      Atom cfg s o s1 → Exec cfg s1 tr s2 → Exec cfg s ((o, s1) :: tr) s2
+
+/-- all observations of a trace, oldest first -/
+def obsOf (tr : List (List Obs × State)) : List Obs := (tr.map (·.1)).flatten
 
 /-- peer `c` of state `s` has the fetch `f` -/
 def HasFetch (s : State) (c : Nat) (f : Fetch) : Prop :=
